@@ -58,6 +58,7 @@ func NewClientWorker(parentLogger logger.Logger, args base.ChunkConsumerArgs, me
 	//
 	// TODO: make this an option or dependent on keys/tags
 	client.inputClosed.Next(func() {
+		vhook.At("worker.stop.beforeAbort")
 		sess := client.activeSession.Load()
 		if sess != nil {
 			sess.Abort(func() {
